@@ -13,13 +13,17 @@ import (
 // Memo is the recognised shape of a memoizing parser function: cache lookup, curtailment guard,
 // wrapped call, cache store.
 type Memo struct {
-	Fn      *ssa.Function
-	Get     *ssa.Call              // (parsley.ResultCache).Get(rc, idx, pos, leftRecCtx)
-	Save    *ssa.Call              // (parsley.ResultCache).Save(rc, idx, pos, result)
-	Wrapped *ssa.Call              // the call of the wrapped parser
-	Result  *ssa.Alloc             // the *parsley.Result saved
-	Stored  map[string][]ssa.Value // field name -> stored values
-	Stores  map[string][]*ssa.Store
+	Fn   *ssa.Function
+	Get  *ssa.Call // (parsley.ResultCache).Get(rc, idx, pos, leftRecCtx)
+	Save *ssa.Call // the save point in Fn: (parsley.ResultCache).Save(rc, idx, pos, result), or the call of a helper doing it
+	// SaveInner is the Save call itself (== Save unless a helper does the saving); SaveArgs are its arguments in
+	// Fn's terms (the helper's parameters replaced by the arguments it is called with).
+	SaveInner *ssa.Call
+	SaveArgs  []ssa.Value
+	Wrapped   *ssa.Call              // the call of the wrapped parser
+	Result    *ssa.Alloc             // the *parsley.Result saved
+	Stored    map[string][]ssa.Value // field name -> stored values
+	Stores    map[string][]*ssa.Store
 }
 
 func isResultCacheMethod(f *ssa.Function, name string) bool {
@@ -63,6 +67,56 @@ func (c *Ctx) memos() []*Memo {
 		if m == nil {
 			continue
 		}
+		tr := func(v ssa.Value) ssa.Value { return v }
+		if m.Save != nil {
+			m.SaveInner = m.Save
+		} else if m.Get != nil {
+			// the saving may have been moved into a helper: h(..., idx, pos, context, node, cp, err) that saves
+			// unconditionally
+			for _, call := range ssax.Calls(fn) {
+				hc, ok := call.(*ssa.Call)
+				if !ok {
+					continue
+				}
+				h := hc.Call.StaticCallee()
+				if h == nil || hc.Call.IsInvoke() || !c.P.InLib(h) || len(h.Blocks) == 0 || ssax.IsParserSig(h.Signature) {
+					continue
+				}
+				var inner *ssa.Call
+				other := false
+				for _, k := range ssax.Calls(h) {
+					kc, ok := k.(*ssa.Call)
+					if !ok {
+						continue
+					}
+					switch {
+					case isResultCacheMethod(kc.Call.StaticCallee(), "Save"):
+						inner = kc
+					case isResultCacheMethod(kc.Call.StaticCallee(), "Get"), ssax.IsParseCall(kc):
+						other = true
+					}
+				}
+				if inner == nil || other || len(ssax.DominatingConds(inner.Block())) > 0 {
+					continue
+				}
+				m.Save, m.SaveInner = hc, inner
+				args := hc.Call.Args
+				tr = func(v ssa.Value) ssa.Value {
+					s := ssax.Strip(v)
+					for i, p := range h.Params {
+						if ssa.Value(p) == s && i < len(args) {
+							return args[i]
+						}
+					}
+					return v
+				}
+			}
+		}
+		if m.SaveInner != nil {
+			for _, a := range m.SaveInner.Call.Args {
+				m.SaveArgs = append(m.SaveArgs, tr(a))
+			}
+		}
 		for _, call := range ssax.Calls(fn) {
 			if cl, ok := call.(*ssa.Call); ok && ssax.IsParseCall(cl) {
 				if m.Wrapped == nil {
@@ -70,8 +124,8 @@ func (c *Ctx) memos() []*Memo {
 				}
 			}
 		}
-		if m.Save != nil && len(m.Save.Call.Args) == 4 {
-			for _, l := range ssax.Leaves(m.Save.Call.Args[3]) {
+		if m.SaveInner != nil && len(m.SaveInner.Call.Args) == 4 {
+			for _, l := range ssax.Leaves(m.SaveInner.Call.Args[3]) {
 				if al, ok := l.(*ssa.Alloc); ok && ssax.NamedIs(al.Type().Underlying().(*types.Pointer).Elem(), "parsley", "Result") {
 					m.Result = al
 				}
@@ -86,7 +140,7 @@ func (c *Ctx) memos() []*Memo {
 				name := fa.X.Type().Underlying().(*types.Pointer).Elem().Underlying().(*types.Struct).Field(fa.Field).Name()
 				for _, rr := range *fa.Referrers() {
 					if st, ok := rr.(*ssa.Store); ok && st.Addr == fa {
-						m.Stored[name] = append(m.Stored[name], st.Val)
+						m.Stored[name] = append(m.Stored[name], tr(st.Val))
 						m.Stores[name] = append(m.Stores[name], st)
 					}
 				}
@@ -94,7 +148,21 @@ func (c *Ctx) memos() []*Memo {
 		}
 		out = append(out, m)
 	}
-	return out
+	// a helper that only saves on behalf of a memoizing parser is part of that parser, not one of its own
+	helper := map[*ssa.Function]bool{}
+	for _, m := range out {
+		if m.SaveInner != nil && m.SaveInner != m.Save {
+			helper[m.SaveInner.Parent()] = true
+		}
+	}
+	var kept []*Memo
+	for _, m := range out {
+		if helper[m.Fn] && m.Get == nil {
+			continue
+		}
+		kept = append(kept, m)
+	}
+	return kept
 }
 
 // fieldLoad: v is a load of field `name` of *base.
@@ -264,7 +332,7 @@ func (c *Ctx) ruleCacheIdentity(rule string) {
 			switch {
 			case len(vs) != 1:
 				c.R.Violation(rule, fn+" stores Result."+f, fn, c.P.InstrPos(m.Save), fmt.Sprintf("Result.%s is stored %d times before Save; expected exactly the wrapped call's result %d", f, len(vs), i))
-			case !(m.Stores[f][0].Block() == m.Save.Block() || m.Stores[f][0].Block().Dominates(m.Save.Block())):
+			case !(m.Stores[f][0].Block() == m.SaveInner.Block() || m.Stores[f][0].Block().Dominates(m.SaveInner.Block())):
 				c.R.Violation(rule, fn+" stores Result."+f+" conditionally", fn, c.P.InstrPos(m.Stores[f][0]), fmt.Sprintf("Result.%s is filled in only on some paths to Save: on the others the cache entry lacks the wrapped parser's result %d, and a hit replays something else than the miss returned", f, i))
 			case !isExtractOf(vs[0], m.Wrapped, i):
 				c.R.Violation(rule, fn+" stores Result."+f, fn, c.P.InstrPos(m.Save), fmt.Sprintf("Result.%s saved in the cache is %s, not result %d of the wrapped parser call at %s: a later cache hit replays something the parser did not return", f, vs[0].String(), i, c.P.InstrPos(m.Wrapped)))
@@ -327,7 +395,7 @@ func (c *Ctx) ruleCacheIdentity(rule string) {
 			}
 		}
 		// key discipline: Save(idx,pos) == Get(idx,pos)
-		ga, sa := m.Get.Call.Args, m.Save.Call.Args
+		ga, sa := m.Get.Call.Args, m.SaveArgs
 		if len(ga) == 4 && len(sa) == 4 {
 			if sameSource(ga[1], sa[1]) && sameSource(ga[2], sa[2]) {
 				c.R.Hold(rule, fn+" cache key", "Get and Save use the same parser index and position values")
